@@ -153,9 +153,25 @@ def is_const(term, value):
     if not isinstance(t, tuple) or t[0] != "const":
         return False
     v = t[1]
+    if isinstance(v, tuple) and v and v[0] == "named":
+        v = _core_const(v[1])
     if isinstance(value, bool) or isinstance(v, bool):
         return v is value
     return v == value
+
+
+def _core_const(name):
+    """value of the numeric limits of the primitive integer types, which reach the facts unevaluated"""
+    import re
+    m = re.match(r"core::num::<impl ([ui])(8|16|32|64|128)>::(MAX|MIN|BITS)$", name)
+    if not m:
+        return ("named", name)
+    signed, bits, what = m.group(1) == "i", int(m.group(2)), m.group(3)
+    if what == "BITS":
+        return bits
+    if what == "MAX":
+        return (1 << (bits - 1)) - 1 if signed else (1 << bits) - 1
+    return -(1 << (bits - 1)) if signed else 0
 
 
 def const_of(term):
